@@ -65,14 +65,14 @@ CLAIMS = {
         technique="Lean 4 theorems on the model of spatial/base|linear|composite|transformer (parameter->tensor per class, "
                   "points/disp/matrix views, sequential fold, warp coordinate pipeline for ANY cube map) + correspondence over "
                   "every transform class",
-        text="25 theorems: default parameters give the identity for every class (Quaternion/Homogeneous defaults were repaired); "
-             "tensor/matrix/points/world-points/disp views describe one map; sequential composites fold in listed order (any "
-             "length); multi-level composites add displacements (linear members included after the repair); for any cube map T "
-             "and any (transform, target, source) grid triple ImageTransformer samples the source at "
-             "worldToIndex(W_T(indexToWorld j)). F-06a/b/c/d/h were repaired by fix: commits; the clauses the current code "
-             "still violates are refuted with witnesses and listed as known findings (F-06e: disp of a linear transform on a "
-             "foreign grid, F-06f: grid-evaluated non-rigid member warped onto another target, F-06g: disp of a non-rigid "
-             "transform on a grid of the other align_corners convention).",
+        text="24 theorems, all positive: default parameters give the identity for every class; tensor/matrix/points/"
+             "world-points/disp views describe one map (disp of a linear transform = T(x)-x in the cube of ANY grid; disp of a "
+             "non-rigid transform on a grid of the other convention is expressed in that grid's cube axes: "
+             "C06_views_agree_disp_nonrigid_partial states what the sampling model carries); sequential composites fold in "
+             "listed order (any length); multi-level composites add displacements; for any cube map T and any (transform, "
+             "target, source) grid triple ImageTransformer samples the source at worldToIndex(W_T(indexToWorld j)), for "
+             "non-rigid transforms on any target grid (C06_warp_nonrigid). All eight defects found (F-06a..h) were repaired by "
+             "fix: commits; no C06 finding is open.",
         ref="5 C06"),
     "C07": dict(
         technique="Lean 4 per-class inverse theorems + induction over composites, and the forward/inverse parameter-sharing "
@@ -121,8 +121,8 @@ CLAIMS = {
         text="10 theorems: every reachable world satisfies the buffer-tag and allocation invariants; a call after ANY history "
              "(any length) observes exactly the parameters, grid and conditioning held at that moment, for plain and "
              "composite transforms; disp right after data_/grid_/condition_/reset reflects the new state; a linked transform "
-             "follows what its source last evaluated; C07's sharing clause. The defects found (F-07, F-09a, F-15a x3) "
-             "were repaired. Regrid-preserves-world is oracle-only (partial): smooth and exactly-linear fields, either "
+             "follows what its source last evaluated; C07's sharing clause. The defects found (F-07, F-09a, F-15a x3, F-09c: grid_ "
+             "ignored a change of align_corners alone) were repaired. Regrid-preserves-world is oracle-only (partial): smooth and exactly-linear fields, either "
              "align_corners before/after; keyword conditioning by oracle.",
         ref="5 C09"),
     "C10": dict(
@@ -166,10 +166,11 @@ CLAIMS = {
     "C16": dict(
         technique="Lean 4 theorems on list models of the losses (reductions, masks, NCC/LCC, Dice/Tversky, MI symmetry) + "
                   "correspondence of functional and module forms",
-        text="46 theorems: mean/sum are the mean/sum of none; masked pointwise losses ignore mask-0 samples and average over "
+        text="52 theorems: mean/sum are the mean/sum of none; masked pointwise losses ignore mask-0 samples and average over "
              "the mask; norm scaling; pointwise losses zero/range/symmetric; NCC and LCC identical/range (Cauchy-Schwarz)/"
              "symmetric/affine-invariant with the exact epsilon law; Dice/Tversky identical/symmetric/range and "
-             "Tversky(1/2,1/2) = Dice on binary inputs; MI symmetric for arbitrary window/log. tversky_loss TypeError, tversky weight shape and the NMI class were "
+             "Tversky(1/2,1/2) = Dice on binary inputs; MI symmetric for arbitrary window/log. the mixed encodings of one binary segmentation (foreground channel / one-hot / label map) give the same index and 1 for identical inputs. "
+             "tversky_loss TypeError, tversky weight shape, the NMI class and the multi-class label-map target (F-16f) were "
              "repaired by fix: commits; the two clauses the current code still violates (ncc_loss mask shape, mi_loss ignores "
              "mask-0 samples) are refuted and listed as known findings. MI/NMI identical/range need properties of log (partial).",
         ref="5 C16"),
